@@ -412,6 +412,6 @@ func init() {
 		Rule: "inputs: every token string up to the stated length over the gating alphabet (dice letters, digits, brackets, keywords, template openers, the #EnableDice macros) x all 2^4 family settings x DisableStmts/NDice/Bitwise, st edit lists of <= 2 edits over 17 value shapes (statement-bearing templates, implicit dice, bitwise, dice letters; the st value context pushes and pops flags) under 16 flag settings, each followed by probes on the same VM; plus run sequences (macro-bearing input — also ones that fail at run time — followed by probes on the same VM). Oracle: the compiled listing of the program and of every nested function/computed body, and every instruction dispatched at any sub-VM depth (VerifStep), contains no opcode of a disabled family unless the input itself carries the enabling macro; no statement opcodes / backward jumps under DisableStmts; no implicit-sides dice under DisableNDice; no bitwise opcodes under DisableBitwiseOp; the VM configuration is field-for-field unchanged by every run. Non-trivial = accepted by the parser; distinct by (sources, configuration).",
 		Enumerate: c16Enumerate,
 		Run:       c16Run,
-		Budget:    map[string]time.Duration{"quick": 170 * time.Second, "thorough": 40 * time.Minute},
+		Budget:    map[string]time.Duration{"quick": 400 * time.Second, "thorough": 40 * time.Minute},
 	})
 }
